@@ -93,9 +93,9 @@ Lemma opts_of_fields : forall d v,
 Proof.
   intros d v. cbv zeta. unfold opts_of.
   destruct (apply_flags_fields (d_flags d) (set_dollar false default_options)) as [H1 [H2 [H3 [H4 [H5 [H6 [H7 H8]]]]]]].
+  set (o1 := apply_flags (d_flags d) (set_dollar false default_options)) in *.
   cbn [set_dollar default_options left_justify always_sign plus_becomes_space alt_conversion fill_zeros
        group_thousands minimum_width precision orb] in H1, H2, H3, H4, H5, H6, H7, H8.
-  set (o1 := apply_flags (d_flags d) (set_dollar false default_options)) in *.
   destruct (width_opts_fields d v o1) as [W1 [W2 [W3 [W4 [W5 [W6 [W7 W8]]]]]]].
   set (o2 := width_opts d v o1) in *.
   destruct (prec_opts_fields d v o2 ltac:(rewrite W8; exact H8)) as [P1 [P2 [P3 [P4 [P5 [P6 [P7 P8]]]]]]].
@@ -104,3 +104,47 @@ Proof.
   repeat split; try reflexivity.
   rewrite prec_opts_arg_pos. subst o2. rewrite width_opts_arg_pos. subst o1. rewrite apply_flags_arg_pos. reflexivity.
 Qed.
+
+(* ---- the padding algebra against the ISO text *)
+Lemma zlen_len : forall l, zlen l = len l.
+Proof. reflexivity. Qed.
+
+Lemma assemble_eq : forall (sign prefix body : list N) width (lj zero : bool) (padding : N),
+  padding = (if zero then 48%N else 32%N) ->
+  (let s' := sign ++ prefix in
+   let fill := width - (zlen s' + zlen body) in
+   if lj then s' ++ body ++ repeat 32%N (Z.to_nat fill)
+   else if N.eqb padding 48 then s' ++ repeat 48%N (Z.to_nat fill) ++ body
+   else repeat padding (Z.to_nat fill) ++ s' ++ body)
+  = (let n := len (sign ++ prefix ++ body) in
+     if lj then sign ++ prefix ++ body ++ blanks (width - n)
+     else if zero then sign ++ prefix ++ zeros (width - n) ++ body
+     else blanks (width - n) ++ sign ++ prefix ++ body).
+Proof.
+  intros sign prefix body width lj zero padding Hp. cbv zeta.
+  assert (Hn : zlen (sign ++ prefix) + zlen body = len (sign ++ prefix ++ body)).
+  { unfold zlen, len. rewrite !app_length. lia. }
+  rewrite Hn. unfold blanks, zeros. subst padding.
+  destruct lj; [rewrite <- !app_assoc; reflexivity|].
+  destruct zero; cbn [N.eqb Pos.eqb]; rewrite <- !app_assoc; reflexivity.
+Qed.
+
+(* octal alternate form: raising the precision = prepending a zero when the body does not start with one *)
+Lemma count_oct_digits_spec : forall fuel n acc, (N.to_nat (N.log2 n) < fuel)%nat -> n <> 0%N ->
+  count_oct_digits fuel n acc = acc + Z.of_nat (length (digits 8 false n)).
+Proof.
+  induction fuel as [|fuel IH]; intros n acc Hf Hn; [lia|]. cbn [count_oct_digits].
+  apply N.eqb_neq in Hn. rewrite Hn. apply N.eqb_neq in Hn.
+  rewrite (digits_unfold 8 false n) by lia.
+  destruct (N.ltb n 8) eqn:E.
+  - apply N.ltb_lt in E. rewrite N.div_small by assumption.
+    destruct fuel; cbn [count_oct_digits N.eqb length]; lia.
+  - apply N.ltb_ge in E. rewrite app_length. cbn [length].
+    rewrite IH.
+    + lia.
+    + pose proof (log2_div_lt n 8 ltac:(lia) E). lia.
+    + intro H0. apply N.div_small_iff in H0; lia.
+Qed.
+
+Lemma count_oct_digits_0 : forall fuel acc, count_oct_digits fuel 0 acc = acc.
+Proof. intros [|fuel] acc; reflexivity. Qed.
